@@ -20,21 +20,27 @@ Proof. exact pack_partition. Qed.
 Print Assumptions C08_pack_partition.
 
 (* The packer's InvalidTransactionException (its final size re-check; it used to `break` and drop the remaining
-   policies) can only be raised when some single asset does not fit max_val_size on its own ... *)
+   policies) can only be raised when some single asset does not fit max_val_size on its own
+   (fit c addr mc v: v passes the packer's size test, sized with max(minimum ADA, mc); mc = ADA of the change) ... *)
 Theorem C08_pack_total : forall c addr change, wfm (massets change) ->
-  singles_fit c addr (massets change) -> fit c addr (mkValue (coin change) []) ->
+  singles_fit c addr (coin change) (massets change) -> fit c addr (coin change) (mkValue (coin change) []) ->
   exists arr, pack_tokens c addr change = Ok arr.
 Proof. exact pack_total. Qed.
 Print Assumptions C08_pack_total.
 
-(* ... which cannot happen in the property's range: a 28-byte policy, a name of at most 32 bytes, a quantity and a
-   minimum ADA below 2^64 fit whenever max_val_size >= 85 (the property ranges over 100..5000) *)
-Theorem C08_single_fits_in_range : forall c addr p n q c0,
+(* ... which cannot happen in the property's range: a 28-byte policy, a name of at most 32 bytes, a quantity, a
+   minimum ADA and a change below 2^64 fit whenever max_val_size >= 85 (the property ranges over 100..5000) *)
+Theorem C08_single_fits_in_range : forall c addr mc p n q c0,
   lenN p = 28%N -> (lenN n <= 32)%N -> 0 < q < two64z ->
-  0 <= reqd c addr (mkValue c0 [(p, [(n, q)])]) < two64z -> 85 <= max_val_size c ->
-  fit c addr (mkValue c0 [(p, [(n, q)])]).
+  0 <= Z.max (reqd c addr (mkValue c0 [(p, [(n, q)])])) mc < two64z -> 85 <= max_val_size c ->
+  fit c addr mc (mkValue c0 [(p, [(n, q)])]).
 Proof. exact singles_fit_in_range. Qed.
 Print Assumptions C08_single_fits_in_range.
+
+Theorem C08_base_fits_in_range : forall c addr mc c0,
+  0 <= Z.max (reqd c addr (mkValue c0 [])) mc < two64z -> 9 <= max_val_size c -> fit c addr mc (mkValue c0 []).
+Proof. exact base_fit_in_range. Qed.
+Print Assumptions C08_base_fits_in_range.
 
 (* Every output returned by _calc_change has non-negative ADA and strictly positive quantities; with
    respect_min_utxo every change output holds the ledger minimum for ITS OWN serialized size (the premise
@@ -51,31 +57,27 @@ Theorem C08_outputs : forall c i outs, 0 <= cpb c -> wf_in i -> calc_change c i 
 Proof. exact calc_change_outputs. Qed.
 Print Assumptions C08_outputs.
 
-(* PARTIAL (known finding last-change-plus-4-bytes): each change value fits max_val_size when its coin is below 2^32;
-   in general only max_val_size + 4 (coin below 2^64): the split is sized with the 5-byte minimum ADA and all
-   remaining ADA then goes into the last output. Missing for the full claim: the case coin >= 2^32, refuted below.
-   Premises: every single asset fits (C08_single_fits_in_range), and 160*coins_per_utxo_byte >= 65536, i.e. every
-   minimum ADA needs at least a 5-byte coin (coins_per_utxo_byte >= 410; mainnet: 4310). *)
-Theorem C08_size_partial : forall c i change outs, wf_in i -> change_of i = Ok change ->
-  singles_fit c (cc_addr i) (massets change) -> fit c (cc_addr i) (mkValue (coin change) []) ->
-  65536 <= 160 * cpb c -> calc_change c i = Ok outs ->
-  Forall (fun v => (0 <= coin v < two32z -> vsize v <= max_val_size c)
-                   /\ (0 <= coin v < two64z -> vsize v <= max_val_size c + 4)) outs.
+(* Every change value fits max_val_size (full statement since fix c8b4af1: the packer sizes every part with
+   max(minimum ADA, ADA of the whole change) and no output receives more than the latter; before, the last output could
+   exceed by 4 bytes — former findings last-change-plus-4-bytes / small-cpb-coin-width, see the Examples
+   size_plus4_fixed / size_small_cpb_fixed in ChangeProofs.v).
+   Premises: every single asset and the bare coin fit (C08_single_fits_in_range / C08_base_fits_in_range discharge them
+   for max_val_size >= 85), and the change holds less than 2^64 lovelace (the ledger's coin is a 64-bit word). *)
+Theorem C08_size : forall c i change outs, 0 <= cpb c -> wf_in i -> change_of i = Ok change ->
+  singles_fit c (cc_addr i) (coin change) (massets change) ->
+  fit c (cc_addr i) (coin change) (mkValue (coin change) []) ->
+  coin change < two64z -> calc_change c i = Ok outs ->
+  Forall (fun v => vsize v <= max_val_size c) outs.
 Proof. exact calc_change_sizes. Qed.
-Print Assumptions C08_size_partial.
+Print Assumptions C08_size.
 
-Lemma C08_size_plus4_refuted :
-  exists outs v, calc_change w4_cfg w4_in = Ok outs /\ In v outs /\ two32z <= coin v < two64z
-                 /\ vsize v = max_val_size w4_cfg + 4.
-Proof. exact size_plus4_witness. Qed.
-Print Assumptions C08_size_plus4_refuted.
-
-(* the premise 160*coins_per_utxo_byte >= 65536 is needed (region small-cpb-coin-width): coins_per_utxo_byte = 1 *)
-Lemma C08_size_small_cpb_refuted :
-  exists outs v, 160 * cpb wsm_cfg < 65536 /\ calc_change wsm_cfg wsm_in = Ok outs /\ In v outs
-                 /\ 0 <= coin v < two32z /\ max_val_size wsm_cfg < vsize v.
-Proof. exact size_small_cpb_witness. Qed.
-Print Assumptions C08_size_small_cpb_refuted.
+(* the premise "every single asset fits" is needed, but only OUTSIDE the property's range (max_val_size = 60):
+   the packer refuses an oversized asset only when it is the last one of its policy *)
+Lemma C08_size_oversized_single_out_of_range_refuted :
+  exists outs v, max_val_size wo_cfg < 85 /\ calc_change wo_cfg wo_in = Ok outs /\ In v outs
+                 /\ max_val_size wo_cfg < vsize v.
+Proof. exact size_oversized_single_out_of_range. Qed.
+Print Assumptions C08_size_oversized_single_out_of_range_refuted.
 
 (* If the minimum cannot be met the builder refuses, and it refuses with InsufficientUTxOBalanceException ONLY then:
    ADA-only change: below the minimum of the change output; token change: below the sum of the minimums of all
